@@ -162,18 +162,32 @@ Fixpoint is_prefix (a b : list Z) : bool :=
   end.
 
 (** after the reopen, new change positions and new internal ids are beyond everything that existed *)
+Definition grows_pos (x y : odsd) : bool :=
+  Z.eqb (od_ds x) (od_ds y)
+  && is_prefix (map fst (od_log x)) (map fst (od_log y))
+  && forallb (fun p => od_dseq x <=? p) (skipn (length (od_log x)) (map fst (od_log y))).
+
+Definition memb (x : Z) (l : list Z) : bool := existsb (Z.eqb x) l.
+
+(** the id table only grows: every URI and every id value of the recovered table is still there, and an id
+    value that was not in the recovered table is at or beyond the recovered next id (set level) *)
+Definition ids_grow (a f : odump) : bool :=
+  forallb (fun u => memb u (map fst (o_ids f))) (map fst (o_ids a))
+  && forallb (fun i => memb i (map snd (o_ids f))) (map snd (o_ids a))
+  && forallb (fun i => memb i (map snd (o_ids a)) || (o_next a <=? i)) (map snd (o_ids f)).
+
 Definition grows (a f : odump) : bool :=
-  list_eqb (fun x y : odsd =>
-              Z.eqb (od_ds x) (od_ds y)
-              && is_prefix (map fst (od_log x)) (map fst (od_log y))
-              && forallb (fun p => od_dseq x <=? p) (skipn (length (od_log x)) (map fst (od_log y))))
-           (o_ds a) (o_ds f)
-  && forallb (fun p : uri * Z =>
-                match assoc (fst p) (o_ids a) with
-                | Some i => Z.eqb i (snd p)           (* an id never changes *)
-                | None => o_next a <=? snd p          (* a new one is beyond the recovered lease start *)
-                end) (o_ids f)
-  && forallb (fun p : uri * Z => match assoc (fst p) (o_ids f) with Some _ => true | None => false end) (o_ids a).
+  list_eqb grows_pos (o_ds a) (o_ds f) && ids_grow a f.
+
+(** pairing level: a URI keeps its id, a new URI gets an id at or beyond the recovered next id.  The model
+    holds the id table only up to the assignment order inside one write (Go map iteration), so this clause is
+    evaluated on the two observed tables directly; the model-side statement is C04_id_stable. *)
+Definition ids_stable (a f : odump) : bool :=
+  forallb (fun p : uri * Z =>
+             match assoc (fst p) (o_ids a) with
+             | Some i => Z.eqb i (snd p)
+             | None => o_next a <=? snd p
+             end) (o_ids f).
 
 (** the recovered data is that of the history without the interrupted write, or with it - in ALL datasets *)
 Definition atomic_ok (t : tcase) : bool :=
@@ -184,7 +198,8 @@ Definition spec_core (t : tcase) : bool :=
   atomic_ok t
   && forallb dsd_consistent (o_ds (t_after t)) && forallb dsd_consistent (o_ds (t_final t))
   && ids_consistent (t_next0 t) (t_after t) && ids_consistent (t_next0 t) (t_final t)
-  && grows (t_after t) (t_final t).
+  && grows (t_after t) (t_final t)
+  && ids_stable (t_after t) (t_final t).
 
 (** the items counter equals the number of entities of the dataset (C19; lags after a crash between
     the data commit and updateDataset on the pinned tree: finding F04a) *)
